@@ -14,6 +14,7 @@ import (
 	"reservoir/utils/assertedpath"
 	"reservoir/utils/atomics"
 	"reservoir/utils/bytesize"
+	"reservoir/utils/verifhook"
 	"sync"
 	"time"
 )
@@ -50,7 +51,9 @@ func NewFileCache[MetadataT any](cfg *config.Config, rootDir string, maxCacheSiz
 
 	// Notifications may arrive out of order: apply the value that is current when the listener runs.
 	c.subs.Add(cfg.Cache.MaxCacheSize.OnChange(func(bytesize.ByteSize) {
-		c.maxCacheSize.Set(cfg.Cache.MaxCacheSize.Read().Bytes())
+		newMax := cfg.Cache.MaxCacheSize.Read().Bytes()
+		verifhook.At("cache.maxsize.read", newMax)
+		c.maxCacheSize.Set(newMax)
 	}))
 
 	c.janitor = newCacheJanitor(cfg, cleanupInterval, cacheFunctions[MetadataT]{
